@@ -208,6 +208,72 @@ def worker_contexts(server_tree):
     return out
 
 
+def local_catch_sites(server_tree):
+    """functions of Server (methods, nested workers) that reach the backend - a `connection.path_io.<op>` call, a
+    call on a file context, or a `self.build_*` helper - AND contain a construct that can stop an exception on its
+    way to the dispatcher: try/except, try/finally, a (sync) `with` (contextlib.suppress ...).  `async with` is the
+    workers' scope and is modelled.  -> ["<function>:<construct>@<line-free description>"]"""
+    out = []
+    srv = [n for n in server_tree.body if isinstance(n, ast.ClassDef) and n.name == "Server"][0]
+
+    def own(fn):
+        # nodes of fn excluding nested function definitions
+        todo = list(fn.body)
+        while todo:
+            n = todo.pop()
+            if isinstance(n, (ast.FunctionDef, ast.AsyncFunctionDef, ast.Lambda)):
+                continue
+            yield n
+            for c in ast.iter_child_nodes(n):
+                if not isinstance(c, (ast.FunctionDef, ast.AsyncFunctionDef, ast.Lambda)):
+                    todo.append(c)
+
+    def reaches(fn):
+        for n in own(fn):
+            if isinstance(n, ast.Attribute) and src(n) == "connection.path_io":
+                return True
+            if isinstance(n, ast.Call) and isinstance(n.func, ast.Attribute) and src(n.func).startswith("self.build_"):
+                return True
+        return False
+
+    def describe_try(n):
+        cls = []
+        for h in n.handlers:
+            if h.type is None:
+                cls.append("BaseException")
+            elif isinstance(h.type, ast.Tuple):
+                cls.extend(src(e) for e in h.type.elts)
+            else:
+                cls.append(src(h.type))
+        return ("try;finally" if n.finalbody else "try"), cls
+
+    def visit(fn, prefix, force):
+        name = prefix + fn.name
+        if force or reaches(fn):
+            for n in own(fn):
+                if isinstance(n, ast.Try) or n.__class__.__name__ == "TryStar":
+                    out.append((name,) + describe_try(n))
+                elif isinstance(n, ast.With):
+                    out.append((name, "with", [src(i.context_expr)[:60] for i in n.items]))
+        for n in fn.body:
+            if isinstance(n, (ast.FunctionDef, ast.AsyncFunctionDef)):
+                visit(n, name + ".", force)
+
+    for m in srv.body:
+        # the dispatcher's own try blocks are facts of Gen.Dispatch (d_task_except, d_outer_except, d_finally)
+        if isinstance(m, (ast.FunctionDef, ast.AsyncFunctionDef)) and m.name != "dispatcher":
+            visit(m, "", False)
+    # the decorators every handler / worker runs under: nothing in them may stop the exception either
+    for top in server_tree.body:
+        if isinstance(top, (ast.FunctionDef, ast.AsyncFunctionDef)) and top.name == "worker":
+            visit(top, "", True)
+        if isinstance(top, ast.ClassDef) and top.name in ("ConnectionConditions", "PathConditions", "PathPermissions"):
+            for m in top.body:
+                if isinstance(m, (ast.FunctionDef, ast.AsyncFunctionDef)):
+                    visit(m, top.name + ".", True)
+    return sorted(out)
+
+
 def _ordered(node):
     """ast nodes in source order"""
     nodes = [n for n in ast.walk(node) if hasattr(n, "lineno")]
@@ -251,6 +317,7 @@ def generate(src_dir):
     enter_calls, exit_calls, bound = filectx_facts(classes["AsyncPathIOContext"])
     wcalls = worker_file_calls(stree)
     wctx = worker_contexts(stree)
+    catches = local_catch_sites(stree)
 
     def row(c, es):
         return "(" + S(c) + ", [" + "; ".join("(" + S(m) + ", " + slist(ds) + ")" for m, ds in es) + "])"
@@ -269,6 +336,8 @@ def generate(src_dir):
     text += "Definition filectx_bound : list (string * string) := [" + "; ".join("(" + S(a) + ", " + S(b) + ")" for a, b in bound) + "].\n\n"
     text += "(* worker -> items of its async-with scope, outermost first, normalised: stream = connection.data_connection, file = path_io.open(..) *)\n"
     text += "Definition worker_ctx : list (string * list string) := [" + "; ".join("(" + S(w) + ", " + slist(items) + ")" for w, items in wctx) + "].\n\n"
+    text += "(* functions of Server that reach the backend and contain try / with (something that could stop the exception before the dispatcher) *)\n"
+    text += "Definition local_catch_sites : list (string * (string * list string)) := [" + "; ".join("(" + S(f) + ", (" + S(k) + ", " + slist(cs) + "))" for f, k, cs in catches) + "].\n\n"
     text += "(* worker -> file context variable -> methods called on it inside its async with, in source order *)\n"
     text += "Definition worker_file_calls : list (string * list (string * list string)) := [\n  " + ";\n  ".join(row(w, cs) for w, cs in wcalls) + "\n].\n"
     return text
